@@ -55,10 +55,16 @@ let c06 toks =
           | Some s -> outs := (string_of_int !evi ^ "." ^ s) :: !outs
           | None -> ()) o in
       let sess s = z_of_int (int_of_string s mod ns) in
+      let dead = Array.make ns false in
+      let is_dead s = dead.(int_of_string s mod ns) in
       let rec go toks =
         incr evi;
         match toks with
         | [] -> ()
+        | "S" :: s :: _ :: _ :: _ :: _ :: _ :: tl when is_dead s -> go tl
+        | ("K" | "R") :: s :: _ :: tl when is_dead s -> go tl
+        | "P" :: s :: _ :: _ :: tl when is_dead s -> go tl
+        | "N" :: s :: _ :: _ :: _ :: tl when is_dead s -> go tl
         | "A" :: dt :: tl -> step (RtAdvance (zi dt)); go tl
         | "W" :: k :: tl ->
             (if !last_tick >= 0 then begin
@@ -78,6 +84,12 @@ let c06 toks =
         | "P" :: s :: mid :: _tok :: tl -> step (RtAck (sess s, zi mid)); go tl
         | "R" :: s :: mid :: tl -> step (RtRst (sess s, zi mid)); go tl
         | "N" :: s :: mid :: _code :: tok :: tl -> step (RtNon (sess s, zi mid, bytes_of_tok tok)); go tl
+        | "D" :: s :: reason :: tl ->
+            let si = int_of_string s mod ns in
+            if not dead.(si) then begin
+              step (RtDisconnect (z_of_int si, zi reason)); dead.(si) <- true
+            end;
+            go tl
         | "Q" :: tl -> step RtDump; go tl
         | _ -> failwith "c06 event" in
       go evtoks;
